@@ -76,6 +76,9 @@ type OnResponse struct {
 	Body       string
 	RawBody    []byte
 	Time       time.Time
+	// FromGateway marks a response the gateway produced itself (an early
+	// response handed to the response remedies): no provider sent it.
+	FromGateway bool
 }
 
 func (onResponse *OnResponse) IsFullResponse() bool {
